@@ -1,8 +1,10 @@
 (* Limit bids of x/auctionsV2 AS CODED (keeper/bid.go DepositLimitAuctionBid, CancelLimitAuctionBid,
    WithdrawLimitAuctionBid; keeper/auctions.go LimitOrderBid = the automatic fill), statement by
-   statement, after the two repairs
+   statement, after the repairs
      fixed: property=C11 7c9449c WithdrawLimitAuctionBid checked neither amount <= own deposit nor the denom (C11-F1)
      fixed: property=C11 989e51c LimitOrderBid left BidValue stale when the deposit equalled the auction debt (C11-F2)
+     fixes/C10-F6, fixes/C10-F5: LimitOrderBid re-reads the auction for every limit bid of a closure, stops after a
+     closing bid, and charges a limit bid the amount PlaceDutchAuctionBid actually bid (C10-F6, C10-F5)
    Withdraw still takes amount and denom from the message, and now compares both with the
    depositor's record before anything moves.
      recs    UserLimitBid records, key (debt asset, collateral asset, premium, bidder) -> DebtToken coin
@@ -86,18 +88,18 @@ Inductive lop :=
 | Deposit  (who coll debt prem denom amt : Z)       (* MsgDepositLimitBidRequest *)
 | Cancel   (who coll debt prem : Z)                 (* MsgCancelLimitBidRequest *)
 | Withdraw (who coll debt prem denom amt : Z)       (* MsgWithdrawLimitBidRequest *)
-| AutoFill (debt coll prem D : Z) (whos : list Z) (spent : Z) (dutch_ok : bool).
-  (* LimitOrderBid for ONE auction (one ApplyFuncIfNoError closure): the auction has outstanding
-     debt D and its discount truncates to [prem]; [whos] = the bidders of the records listed by
-     GetUserLimitBidDataByPremium, in store order.  dutch_ok = every PlaceDutchAuctionBid
-     (isAutoBid) of the closure succeeded (else the closure is rolled back: a record the
-     auction's stale copy can no longer be bid on, a collateral shortfall the app reserve cannot
-     cover, a missing price ...); spent = the net outflow of the module's debt-denom coins that the
-     Dutch settlement of the closure caused, not counting the coins the module keeps for running
-     auctions (their proceeds) and as booked fees of external auctions (environment, see C10).
-     It is the sum of the bids PlaceDutchAuctionBid actually placed: a closing bid is cut down to
-     the auction debt, or -- when the collateral runs short -- to the value of the left-over
-     collateral, the app reserve paying the rest INTO the module.  spent < 0 is a net inflow. *)
+| AutoFill (debt coll prem : Z) (fills : list (Z * Z)) (spent : Z) (dutch_ok : bool).
+  (* LimitOrderBid for ONE auction (one ApplyFuncIfNoError closure) whose discount truncates to [prem]:
+     [fills] = the limit bids the closure bid with, in store order, each with the amount
+     PlaceDutchAuctionBid actually bid for it (the debt amount of the user bid it created - what the
+     repaired code reads back): the whole limit bid, or less when the bid was cut down to the auction
+     debt or to the value of the left-over collateral; the closure ends with the bid that closes the
+     auction.  dutch_ok = every PlaceDutchAuctionBid (isAutoBid) of the closure succeeded (else the
+     closure is rolled back: a collateral shortfall the app reserve cannot cover, a missing price,
+     a dust remainder ...); spent = the net outflow of the module's debt-denom coins that the Dutch
+     settlement of the closure caused, not counting the coins the module keeps for running auctions
+     (their proceeds) and as booked fees of external auctions (environment, see C10: c10_custody
+     proves spent = what the limit bids are charged).  spent < 0 is a net inflow. *)
 
 Definition lift {A} (r : lres) (code : Z) (k : ledger -> outcome A) : outcome A :=
   match r with LOk l => k l | LErr => Err code | LPanic => Panic end.
@@ -125,34 +127,28 @@ Definition cancel (c : cfg) (s : lstate) (who coll debt prem : Z) : outcome lsta
       end
   end.
 
-(* the loop body of LimitOrderBid over the listed records, against the auction record read BEFORE
-   the loop (the code never re-reads it: every iteration sees the same D); returns the state and
-   the amount the records were charged.  A record the listing names but the store no longer has
-   is not iterated.  The equal-amount branch returns from the closure.  The record is charged by
-   what LimitOrderBid compares, not by what PlaceDutchAuctionBid placed: min(record, D), also when
-   the bid was cut down to the value of the left-over collateral (the difference stays in the
-   module, owned by no record: C10's concern, see [settle]). *)
-Fixpoint fill_recs (debt coll prem D : Z) (whos : list Z) (s : lstate) : lstate * Z :=
-  match whos with
-  | [] => (s, 0)
-  | w :: rest =>
+(* the book side of the loop of LimitOrderBid: every limit bid is charged what was actually bid for it
+   (never more than it holds: ErrorMaxBidAmount fails the closure), deleted when it is used up and
+   reduced otherwise; the market total falls by the same amount.  Returns the state and the amount
+   the limit bids were charged; None = the closure fails (or the listing names a bid the store does
+   not have: not a closure of the code). *)
+Fixpoint fill_recs (debt coll prem : Z) (fills : list (Z * Z)) (s : lstate) : option (lstate * Z) :=
+  match fills with
+  | [] => Some (s, 0)
+  | (w, bid) :: rest =>
       let k := mkK debt coll prem w in
       match aget keq k (recs s) with
-      | None => fill_recs debt coll prem D rest s
+      | None => None
       | Some r =>
-          if r_amt r >=? D then
-            if r_amt r =? D then
-              (mkL (adel keq k (recs s)) (aset meq (debt, coll) (tot (debt, coll) s - D) (totals s)) (led s), D)
-            else
-              let '(s', ch) := fill_recs debt coll prem D rest
-                                 (mkL (aset keq k (mkR (r_amt r - D) (r_denom r)) (recs s))
-                                      (aset meq (debt, coll) (tot (debt, coll) s - D) (totals s)) (led s)) in
-              (s', D + ch)
+          if (bid <? 0) || (bid >? r_amt r) then None
           else
-            let '(s', ch) := fill_recs debt coll prem D rest
-                               (mkL (adel keq k (recs s))
-                                    (aset meq (debt, coll) (tot (debt, coll) s - r_amt r) (totals s)) (led s)) in
-            (s', r_amt r + ch)
+            let recs' := if bid =? r_amt r then adel keq k (recs s)
+                         else aset keq k (mkR (r_amt r - bid) (r_denom r)) (recs s) in
+            match fill_recs debt coll prem rest
+                    (mkL recs' (aset meq (debt, coll) (tot (debt, coll) s - bid) (totals s)) (led s)) with
+            | Some (s', ch) => Some (s', bid + ch)
+            | None => None
+            end
       end
   end.
 
@@ -209,12 +205,15 @@ Definition lstep (c : cfg) (s : lstate) (o : lop) : outcome lstate :=
           | Panic => Panic
           end
       end
-  | AutoFill debt coll prem D whos spent dutch_ok =>
+  | AutoFill debt coll prem fills spent dutch_ok =>
       if negb dutch_ok then Err 30 else
-      let '(s1, _) := fill_recs debt coll prem D whos s in
-      match denom_of c debt with
-      | None => Ok s1                                             (* no such asset: no record either *)
-      | Some dd => lift (settle (led s1) dd spent) 31 (fun l' => Ok (mkL (recs s1) (totals s1) l'))
+      match fill_recs debt coll prem fills s with
+      | None => Err 32
+      | Some (s1, _) =>
+          match denom_of c debt with
+          | None => Ok s1                                         (* no such asset: no record either *)
+          | Some dd => lift (settle (led s1) dd spent) 31 (fun l' => Ok (mkL (recs s1) (totals s1) l'))
+          end
       end
   end.
 
@@ -250,6 +249,6 @@ Definition holds_C11_limit_own (pre : lstate) (o : lop) (d delta : Z) : bool :=
       | Some r => if d =? r_denom r then (delta <=? Z.max 0 (r_amt r)) else (delta <=? 0)
       | None => delta <=? 0
       end
-  | AutoFill _ _ _ _ _ _ _ => delta <=? 0       (* a fill pays out collateral only (C10), never debt coins *)
+  | AutoFill _ _ _ _ _ _ => delta <=? 0         (* a fill pays out collateral only (C10), never debt coins *)
   | Deposit _ _ _ _ _ _ => true
   end.
